@@ -519,11 +519,87 @@ func c17Random(c *core.Ctx, p c17Params) {
 		if i%8 == 0 {
 			c17Transformer(c, r)
 		}
+		if i%16 == 0 {
+			c17MultiRouting(c, r)
+		}
 		if i == 7 {
 			c.Sample(map[string]interface{}{"random_pattern": pat, "instantiation": c17Instantiate(r, pat, false)})
 		}
 	}
 	_ = nontrivial
+}
+
+// c17MultiRouting: routing agrees with matching when several overlapping patterns are
+// registered: a name is routed to some handler exactly when some registered pattern
+// matches it (Pattern.Matches and the reference grammar agreeing on that), and the
+// pattern it is routed to is one that matches.
+func c17MultiRouting(c *core.Ctx, r *rand.Rand) {
+	m := res.NewMux("svc")
+	var pats []string
+	for len(pats) < 4 {
+		p := c06RandPattern(r)
+		if p == "" {
+			continue
+		}
+		marker := fmt.Sprintf("m%d", len(pats))
+		if pn := try(func() { m.AddHandler(p, res.Handler{Call: map[string]res.CallHandler{marker: nil}}) }); pn != nil {
+			continue // conflicts with one registered before: not part of this set
+		}
+		pats = append(pats, "svc."+p)
+	}
+	for _, p := range pats {
+		for k := 0; k < 4; k++ {
+			name := c17Instantiate(r, p, k == 3)
+			if k == 2 {
+				// bias towards tokens that are literals of the other patterns
+				toks := strings.Split(name, ".")
+				other := ref.Tokens(pats[r.Intn(len(pats))])
+				if j := 1 + r.Intn(len(toks)); j < len(toks) && j < len(other) && ref.ClassifyToken(other[j]) == ref.TokLiteral {
+					toks[j] = other[j]
+					name = strings.Join(toks, ".")
+				}
+			}
+			if !ref.ValidName(name) {
+				continue
+			}
+			c.Eval(1)
+			c.Obs("multi_pattern_routing_names", 1)
+			var matching []string
+			for i, q := range pats {
+				_, want := ref.Match(q, name)
+				if got := res.Pattern(q).Matches(name); got != want {
+					c.Violation("C17/matches:"+c17Shape(q), fmt.Sprintf("Pattern(%q).Matches(%q)=%v, reference %v", q, name, got, want), map[string]interface{}{"pattern": q, "name": name})
+					return
+				}
+				if want {
+					matching = append(matching, fmt.Sprintf("m%d", i))
+				}
+			}
+			var mh *res.Match
+			if pn := try(func() { mh = m.GetHandler(name) }); pn != nil {
+				c.Violation("C17/routing-panics", fmt.Sprintf("GetHandler(%q) panicked: %v", name, pn), map[string]interface{}{"patterns": pats, "name": name})
+				return
+			}
+			routed := ""
+			if mh != nil {
+				for k := range mh.Handler.Call {
+					routed = k
+				}
+			}
+			ok := (mh == nil) == (len(matching) == 0)
+			if ok && mh != nil {
+				ok = false
+				for _, x := range matching {
+					ok = ok || x == routed
+				}
+			}
+			if !ok {
+				c.Violation("C17/routing-vs-matching:several-patterns", fmt.Sprintf("patterns %q: name %q is matched by %v but routed to %q", pats, name, matching, routed),
+					map[string]interface{}{"patterns": pats, "name": name, "matching": matching, "routed_to": routed})
+				return
+			}
+		}
+	}
 }
 
 // c17Transformer: IDToRID then routing + RIDToID is the identity on valid parts.
